@@ -1,4 +1,4 @@
-From V Require Import Common.Base C07.Vlq C07.SpecMap C07.Mappings C07.MappingsProofs C07.FindProofs C07.JoinProofs.
+From V Require Import Common.Base Common.Utf8 C07.LineCol C07.Builder C07.Vlq C07.SpecMap C07.Mappings C07.MappingsProofs C07.FindProofs C07.JoinProofs.
 (* non-vacuity / sanity: concrete values *)
 Example enc_ex : map encodeVLQ [0; 1; -1; 15; 16; -16; 123456] =
   [[65]; [67]; [68]; [101]; [103; 66]; [104; 66]; [103; 107; 120; 72]].
@@ -20,3 +20,10 @@ Example join_ex :
   = Some (ebytes (repeat ONewline 2 ++ rebase 5 3 4 true ops) 65 prevEnd)
   /\ first_name_off ops 0 state0 0 = Some 10%nat.
 Proof. vm_compute. split; reflexivity. Qed.
+(* the builder hypothesis is satisfiable: a run over a two-line text with a non-ASCII char *)
+Example builder_ex :
+  let text := [97; 195; 169; 98; 10; 99; 100] in
+  exists b, run_builder (GenerateLineOffsetTables text) (bst0 true)
+              [(0, 0, []); (3, 1, [120; 32]); (5, 0, [121; 10; 32; 32]); (6, 2, [122])] = Some b
+            /\ b_map b = [65;65;65;65; 44; 69;65;65;69;65; 59; 65;65;65;65; 44; 69;65;67;70; 44; 67;65;65;67;67].
+Proof. eexists. vm_compute. split; reflexivity. Qed.
